@@ -115,8 +115,25 @@ func applyC13Mutation(rt *rapid.T, s *SetSpec, m string) {
 	case "update-nonmodel":
 		s.Ops = append(s.Ops, model.Op{Kind: "update", Target: firstTarget(s), Path: relTo(s, model.Parse("/a/zz")), Val: &v})
 	case "key-mismatch":
-		kv := model.Str("other")
-		s.Ops = append(s.Ops, model.Op{Kind: "update", Target: firstTarget(s), Path: relTo(s, model.Parse("/l1[id=1]/id")), Val: &kv})
+		// a key leaf written with a value that contradicts the key in its path: single-key list, the second key of
+		// a two-key list, the key of a list nested in a list (the outer key is right), a module-prefixed list
+		switch rapid.IntRange(0, 4).Draw(rt, "keymismatch") {
+		case 0:
+			kv := model.Str("other")
+			s.Ops = append(s.Ops, model.Op{Kind: "update", Target: firstTarget(s), Path: relTo(s, model.Parse("/l1[id=1]/id")), Val: &kv})
+		case 1:
+			kv := model.Bool(false)
+			s.Ops = append(s.Ops, model.Op{Kind: "update", Target: firstTarget(s), Path: relTo(s, model.Parse("/l2[k1=1][k2=true]/k2")), Val: &kv})
+		case 2:
+			kv := model.Uint(2)
+			s.Ops = append(s.Ops, model.Op{Kind: "update", Target: firstTarget(s), Path: relTo(s, model.Parse("/l2[k1=1][k2=true]/k1")), Val: &kv})
+		case 3:
+			kv := model.Str("xy")
+			s.Ops = append(s.Ops, model.Op{Kind: "update", Target: firstTarget(s), Path: relTo(s, model.Parse("/l1[id=1]/l3[n=x]/n")), Val: &kv})
+		case 4:
+			kv := model.Str("1") // equals the OUTER key, contradicts its own
+			s.Ops = append(s.Ops, model.Op{Kind: "update", Target: firstTarget(s), Path: relTo(s, model.Parse("/l1[id=1]/l3[n=x]/n")), Val: &kv})
+		}
 	case "key-name-wrong":
 		// a look-alike of a valid path: right list, right leaf, wrong key NAME (written validly just before, so
 		// that anything that remembers the valid path is primed)
